@@ -418,7 +418,12 @@ def run_real(scn, seed, policy="weighted", change_points=None, probe_after=True)
         elif f == "stopA":
             cli.stop()
         elif f == "disc":
-            cli.disconnect_from_peer("srv")
+            try:
+                cli.disconnect_from_peer("srv")
+            except Exception as e:  # noqa
+                # a value the receiving side cannot rebuild has already cost the client this connection
+                if not (type(e).__name__ == "QMI_UnknownNameException" and UNLOADABLE & set(features(scn))):
+                    raise
         late = scn.get("late")
         if late:
             cli3 = w.context("cli3")
